@@ -281,10 +281,17 @@ SolverCallClauses(T, prev, ev, post) ==
       \cup If(post.core # prev.core, {C("C04:solver-changed-caller-state")})
 
 (* --- C08: the real dispatch tree under the real filter --------------------- *)
+RECURSIVE StateAfter(_, _, _)
+StateAfter(I, s, prefix) ==
+    IF prefix = <<>> THEN s ELSE StateAfter(I, DispatchNext(I, s, Head(prefix)[1], Head(prefix)[2]), Tail(prefix))
 BestFilteredClauses(T, prev, ev, post) ==
     LET I == T.inst  opt == Opt(I) IN
     IF ev.out # "ok" THEN {Tag("C08:tree-walk-raised", ev.out)}
     ELSE   If(ev.leaves = <<>>, {C("C08:no-complete-schedule")})
+      \cup If(ev.conflicts # <<>>, {Tag("C08:surviving-operations-depend-on-history", ev.bfilt)})
+      \cup If(\E i \in DOMAIN ev.nodes :
+                ev.nodes[i].avail # Avail(I, StateAfter(I, InitState(I), ev.nodes[i].prefix), ev.bfilt),
+              {Tag("C08:surviving-operations-differ-from-the-filter-definition", ev.bfilt)})
       \cup If(\E i \in DOMAIN ev.leaves : ev.leaves[i] = -1, {Tag("C07:filter-dead-end", ev.bfilt)})
       \cup If(\E i \in DOMAIN ev.leaves : ev.leaves[i] # -1 /\ ev.leaves[i] < opt, {C("C08:below-optimum")})
       \cup If(PositiveDurations(I) /\ ev.bfilt \in {<<>>, <<"dom">>}
